@@ -1012,6 +1012,20 @@ var examples = []string{
 	`.Individuals | Only(.Spouses | Length > 0) | { name: .Name | .String, n: .Children | Length }`, `.Nodes | .Pointer = "I1"`, `.Individuals | .Sex | .Value`,
 }
 
+func init() {
+	// deep nesting (the cost of parsing and evaluating must not explode with the depth) and variables that refer to
+	// themselves more than once in one expression (the depth limit must stop them at once, not after 2^depth steps)
+	for _, d := range []int{12, 22, 40} {
+		examples = append(examples,
+			strings.Repeat("Combine(", d)+".Individuals"+strings.Repeat(")", d),
+			".Individuals | "+strings.Repeat("{ a: ", d)+".Name | .String"+strings.Repeat(" }", d),
+			strings.Repeat("{ a: Combine(", d)+".Families"+strings.Repeat(") }", d),
+			".Individuals | "+strings.Repeat("Only(", d)+`.Sex | .Value = "M"`+strings.Repeat(")", d))
+	}
+	examples = append(examples, `T is { l: T, r: T }; T`, `T is Combine(T, T); T`, `T is { l: T | .Name, m: T, r: T }; .Individuals | T`,
+		`A is { x: B, y: B }; B is { x: A, y: A }; A`, `T is Only(T = T); .Individuals | T`)
+}
+
 var tokenPool = []string{".", ".Individuals", ".Name", ".Nodes", ".String", ".X", "|", ";", "?", "(", ")", "{", "}", ":", ",", "=", "!", ">", "<", `"a"`, `""`, "1", "0",
 	"First", "Last", "Length", "Only", "Combine", "NodesWithTagPath", "MergeDocumentsAndIndividuals", "is", "are", "X", "Document1", "Document2", "name", `"`}
 
